@@ -10,6 +10,8 @@ structure St where
   bdb : BlockDb := []
   b : BlockCache := ⟨[], []⟩
   s : SendCache := SendCache.empty
+  x : UIdx := ⟨[], [], ⟨[], 5, 10000⟩⟩
+  xblocks : List (Nat × List BTx) := []
 
 def csv (s : String) : List String := if s = "-" then [] else s.splitOn ","
 def joinC (xs : List String) : String := if xs.isEmpty then "-" else ",".intercalate xs
@@ -30,6 +32,16 @@ def fmtS (s : SendCache) : String :=
   let outer := (s.outer.mergeSort (fun a c => a.1 ≤ c.1)).map fun e =>
     s!"{e.1}:" ++ "+".intercalate ((e.2.map (fun p => b2s p.1)).mergeSort (fun a c => a ≤ c))
   s!"fifo={joinC fifo} outer={joinC outer}"
+
+/-- `h:nout:cacheable:coinbase:r.i+r.i` -/
+def parseBTx (s : String) : Option BTx :=
+  match s.splitOn ":" with
+  | [h, n, c, cb, ins] => do
+      let ins ← (if ins = "-" then [] else ins.splitOn "+").mapM fun x => match x.splitOn "." with
+        | [r, i] => do some (← nat? r, ← nat? i)
+        | _ => none
+      some ⟨← nat? h, ← nat? n, (← nat? c) == 1, (← nat? cb) == 1, ins⟩
+  | _ => none
 
 def step (st : St) : List String → St × String
   | ["reset"] => ({}, "ok")
@@ -102,6 +114,28 @@ def step (st : St) : List String → St × String
         (st, match st.idb.lookup id with
           | some (h, tx) => s!"ok {h} {tx}"
           | none => "err notfound")
+      | none => (st, "bad-op")
+  | ["x.reset", vol] => match nat? vol with
+      | some v => ({ st with x := ⟨[], [], ⟨[], v, 10000⟩⟩, xblocks := [] }, "ok")
+      | none => (st, "bad-op")
+  | ["x.connect", height, txs] => match nat? height, (txs.splitOn ";").mapM parseBTx with
+      | some h, some txs =>
+        let x := st.x.connectBlock [] h txs
+        ({ st with x := x, xblocks := (h, txs) :: st.xblocks }, s!"ok len={x.cache.txns.length}")
+      | _, _ => (st, "bad-op")
+  | ["x.disconnect", height] => match nat? height >>= fun h => st.xblocks.lookup h with
+      | some txs =>
+        let x := st.x.disconnectBlock txs
+        ({ st with x := x }, s!"ok len={x.cache.txns.length}")
+      | none => (st, "bad-op")
+  | ["x.fetch", id] => match nat? id with
+      | some id =>
+        let r := match st.x.cache.fetch st.x.txdb id with
+          | some (h, _) => s!"ok {h}"
+          | none => "err notfound"
+        let c := match st.x.cache.txns.lookup id with
+          | some _ => "hit" | none => "miss"
+        (st, r ++ " " ++ c)
       | none => (st, "bad-op")
   | ["b.reset"] => ({ st with bdb := [], b := ⟨[], []⟩ }, "ok")
   | ["b.store", id, c] => match nat? id, nat? c with
